@@ -2767,7 +2767,10 @@ fn run_seq(ctx: &mut Ctx, op: &str) -> Option<()> {
     let text: String = subs.iter().map(|x| format!("C09 {}\n", x)).collect();
     let child_out: Result<Vec<String>, String> = (|| {
         std::fs::write(&ops_file, text).map_err(|e| e.to_string())?;
-        let exe = std::env::current_exe().map_err(|e| e.to_string())?;
+        // the SAME binary as this process: `/proc/self/exe` stays executable when a concurrent build has
+        // replaced (unlinked) the file `current_exe()` names, which would otherwise fail with ENOENT
+        let proc_exe = std::path::PathBuf::from("/proc/self/exe");
+        let exe = if proc_exe.exists() { proc_exe } else { std::env::current_exe().map_err(|e| e.to_string())? };
         let st = std::process::Command::new(exe)
             .args(["replay", "C09", "--ops"])
             .arg(&ops_file)
